@@ -296,6 +296,11 @@ class Runner:
             r = self.user_hook(self, ev, call, name, recv, args, kwargs)
             if r is not NotImplemented:
                 return r
+            # a helper extracted under a private name (`_split_two_jordans` for `split_two_jordans`) plays the same role
+            if isinstance(name, str) and name.startswith("_") and not name.endswith("__") and name.lstrip("_") != name:
+                r = self.user_hook(self, ev, call, name.lstrip("_"), recv, args, kwargs)
+                if r is not NotImplemented:
+                    return r
         if isinstance(recv, StandIn) and isinstance(f, ast.Attribute) and hasattr(recv, f.attr):
             return getattr(recv, f.attr)(*args, **kwargs)
         if isinstance(recv, StandIn) and isinstance(f, ast.Name) and callable(recv):
